@@ -2,7 +2,7 @@
 import importlib
 import os
 
-MODULES = ['g_complexity', 'g_aminoacids', 'g_sequence', 'g_params', 'g_effects', 'g_plotting', 'g_wl']
+MODULES = ['g_complexity', 'g_aminoacids', 'g_sequence', 'g_params', 'g_effects', 'g_plotting', 'g_wl', 'g_minipy']
 
 
 def run(repo, outdir):
